@@ -87,3 +87,18 @@ Proof. vm_compute. reflexivity. Qed.
 Example C16_example_units :
   units_of ex_lib (map jblocks (block_junks ex_lib)) /\ length (block_junks ex_lib) = 6.
 Proof. split; [exact (junks_units ex_lib) | vm_compute; reflexivity]. Qed.
+
+(* ---- "the input library is left unchanged" (heap level; the framework model of C07): SortBlocksByTypeAndKey deep-copies
+   the block list and builds a new library for EVERY permutation the sort may apply - every pre-existing object is
+   unchanged and nothing reachable from the result is a pre-existing object.  Stated with the executable deep copy
+   (an instance of the contract assumed of copy.deepcopy: C07_deepcopy_exec_contract). *)
+From BP Require Import Model.Heap Model.HeapMw Spec.C07 Proofs.HeapProofs Proofs.HeapCopyTotal.
+Theorem C16_input_kept : forall perm h lib h' lib', wf_heap h -> In lib (dom h) ->
+  sort_blocks_mw deepcopy_exec perm h lib = Some (h', lib') ->
+  unchanged h h' /\ (forall p, reach h' lib' p -> ~ In p (dom h)).
+Proof.
+  intros perm h lib h' lib' W L E.
+  destruct (sort_blocks_ok deepcopy_exec deepcopy_exec_contract perm h lib h' lib' W L E) as (_ & _ & U & S).
+  split; [exact U | exact S].
+Qed.
+Print Assumptions C16_input_kept.
